@@ -82,7 +82,9 @@ def run(sc, workdir):
     kept = [p for p in sel if p not in removed]
     # ---- new parameters and translation (input data; drawn from a small expression grammar)
     newids = ["vn%d" % (k + 1) for k in range(len(shape["new"]))]
-    typ = removed[0].type
+    # a new parameter need not inherit the type of the parameter it replaces (e.g. a volume
+    # parameter may be replaced by untyped ones; then no new parameter is dispersible)
+    typ = removed[0].type if rng.random() < 0.65 else ""
     b0 = {p.id: float(p.default) for p in removed}
     assign = []
     xvals = {}
